@@ -25,6 +25,7 @@ Definition fnames (FT : ftab) : list str := map fst FT.
 Section OkStmt.
 Variable FT : ftab.
 Variable SP : option (list str).   (* the parameters of the executing function (None at module level): `self(args)` *)
+Variable CD : list str.            (* the DATA variables the executing function captures (read by reference) *)
 (* expressions with calls: call-free expressions, the operators + - * / % comparisons && || ! unary-minus over
    such expressions, and calls of a known function / of the executing function with the right number of
    arguments, which are again such expressions (calls nested at any depth) *)
@@ -77,20 +78,20 @@ Fixpoint ok_stmt (il : bool) (B : list str) (s : stmt) {struct s} : bool :=
   let fix okb (il : bool) (B : list str) (l : list stmt) {struct l} : bool :=
     match l with [] => true | s :: l => ok_stmt il B s && okb il (after B s) l end in
   match s with
-  | SAssign x e => src_nameb x && negb (mem_str x (fnames FT)) && ok_rhs B e
-  | SOpAssign x o e => arith5 o && src_nameb x && mem_str x B && ok_rhs B e
-  | SPrint e => ok_rhs B e
-  | SExpr e => ok_rhs B e
-  | SAssert e _ => ok_rhs B e
-  | SIf c b => ok_rhs B c && okb il B b
-  | SIfElse c b e => ok_rhs B c && okb il B b && okb il B e
-  | SIfElif c b n => ok_rhs B c && okb il B b && ok_stmt il B n
-  | SWhile c b => ok_rhs B c && okb true B b
+  | SAssign x e => src_nameb x && negb (mem_str x (fnames FT)) && ok_rhs (B ++ CD) e
+  | SOpAssign x o e => arith5 o && src_nameb x && mem_str x B && ok_rhs (B ++ CD) e
+  | SPrint e => ok_rhs (B ++ CD) e
+  | SExpr e => ok_rhs (B ++ CD) e
+  | SAssert e _ => ok_rhs (B ++ CD) e
+  | SIf c b => ok_rhs (B ++ CD) c && okb il B b
+  | SIfElse c b e => ok_rhs (B ++ CD) c && okb il B b && okb il B e
+  | SIfElif c b n => ok_rhs (B ++ CD) c && okb il B b && ok_stmt il B n
+  | SWhile c b => ok_rhs (B ++ CD) c && okb true B b
   | SFrom a b _ st nm collide body =>
-    ok_expr B a && ok_expr B b &&
+    ok_expr (B ++ CD) a && ok_expr (B ++ CD) b &&
     match nm, collide with
     | Some x, false =>   (* a fresh counter: a variable of the enclosing block for the duration of the loop *)
-      src_nameb x && negb (mem_str x (fnames FT)) && negb (mem_str x B) && step_ok (x :: B) st && okb true (x :: B) body
+      src_nameb x && negb (mem_str x (fnames FT)) && negb (mem_str x B) && negb (mem_str x (used_e b)) && step_ok (x :: B) st && okb true (x :: B) body
     | Some x, true =>    (* the counter is an existing variable (the upper bound mentions no variable) *)
       src_nameb x && negb (mem_str x (fnames FT)) && mem_str x B && match used_e b with [] => true | _ => false end && step_ok B st && okb true B body
     | None, false => step_ok B st && okb true B body     (* a hidden counter *)
@@ -98,25 +99,25 @@ Fixpoint ok_stmt (il : bool) (B : list str) (s : stmt) {struct s} : bool :=
     end
   | SBreak => il
   | SContinue => il
-  | SReturn (Some e) => ok_rhs B e
+  | SReturn (Some e) => ok_rhs (B ++ CD) e
   | _ => false
   end.
 
 Fixpoint ok_block (il : bool) (B : list str) (l : list stmt) {struct l} : bool :=
   match l with [] => true | s :: l => ok_stmt il B s && ok_block il (after B s) l end.
 
-Lemma ok_SIf : forall il B c b, ok_stmt il B (SIf c b) = ok_rhs B c && ok_block il B b.
+Lemma ok_SIf : forall il B c b, ok_stmt il B (SIf c b) = ok_rhs (B ++ CD) c && ok_block il B b.
 Proof. reflexivity. Qed.
-Lemma ok_SIfElse : forall il B c b e, ok_stmt il B (SIfElse c b e) = ok_rhs B c && ok_block il B b && ok_block il B e.
+Lemma ok_SIfElse : forall il B c b e, ok_stmt il B (SIfElse c b e) = ok_rhs (B ++ CD) c && ok_block il B b && ok_block il B e.
 Proof. reflexivity. Qed.
-Lemma ok_SIfElif : forall il B c b n, ok_stmt il B (SIfElif c b n) = ok_rhs B c && ok_block il B b && ok_stmt il B n.
+Lemma ok_SIfElif : forall il B c b n, ok_stmt il B (SIfElif c b n) = ok_rhs (B ++ CD) c && ok_block il B b && ok_stmt il B n.
 Proof. reflexivity. Qed.
-Lemma ok_SWhile : forall il B c b, ok_stmt il B (SWhile c b) = ok_rhs B c && ok_block true B b.
+Lemma ok_SWhile : forall il B c b, ok_stmt il B (SWhile c b) = ok_rhs (B ++ CD) c && ok_block true B b.
 Proof. reflexivity. Qed.
 Lemma ok_SFrom : forall il B a b incl st nm collide body, ok_stmt il B (SFrom a b incl st nm collide body) =
-  ok_expr B a && ok_expr B b &&
+  ok_expr (B ++ CD) a && ok_expr (B ++ CD) b &&
   match nm, collide with
-  | Some x, false => src_nameb x && negb (mem_str x (fnames FT)) && negb (mem_str x B) && step_ok (x :: B) st && ok_block true (x :: B) body
+  | Some x, false => src_nameb x && negb (mem_str x (fnames FT)) && negb (mem_str x B) && negb (mem_str x (used_e b)) && step_ok (x :: B) st && ok_block true (x :: B) body
   | Some x, true => src_nameb x && negb (mem_str x (fnames FT)) && mem_str x B && match used_e b with [] => true | _ => false end && step_ok B st && ok_block true B body
   | None, false => step_ok B st && ok_block true B body
   | None, true => false
@@ -364,14 +365,14 @@ Lemma cstmt_SFrom : forall c sl a b incl step nm collide body st,
 Proof. reflexivity. Qed.
 
 Definition frag_eq (c : nat) (s : stmt) : Prop :=
-  forall FT SP il B sl st, ok_stmt FT SP il B s = true -> cstmt path c sl s st = (sitems c (lreg st) sl s, st).
+  forall FT SP CD il B sl st, ok_stmt FT SP CD il B s = true -> cstmt path c sl s st = (sitems c (lreg st) sl s, st).
 
 Lemma cblockT_frag : forall c l, Forall (frag_eq c) l ->
-  forall FT SP il B sl st, ok_block FT SP il B l = true -> cblockT c sl l st = (bitems c (lreg st) sl l, st).
+  forall FT SP CD il B sl st, ok_block FT SP CD il B l = true -> cblockT c sl l st = (bitems c (lreg st) sl l, st).
 Proof.
-  intros c. induction l as [|s l IH]; intros HF FT SP il B sl st Hok; [reflexivity|].
+  intros c. induction l as [|s l IH]; intros HF FT SP CD il B sl st Hok; [reflexivity|].
   inversion HF as [|? ? Hs Hl]; subst. cbn [ok_block] in Hok. apply Bool.andb_true_iff in Hok as [H1 H2].
-  cbn [cblockT bitems]. rewrite (Hs FT SP il B sl st H1). rewrite (IH Hl FT SP il (after B s) sl st H2). reflexivity.
+  cbn [cblockT bitems]. rewrite (Hs FT SP CD il B sl st H1). rewrite (IH Hl FT SP CD il (after B s) sl st H2). reflexivity.
 Qed.
 
 Ltac okx H := repeat (rewrite Bool.andb_true_iff in H; let H' := fresh H in destruct H as [H H']).
@@ -437,52 +438,52 @@ Proof. intros B e d st H. rewrite xcode_pure; [now apply (cexpr_ok B)|]. now app
 Theorem cstmt_frag : forall c s, frag_eq c s.
 Proof.
   intros c. apply (stmt_ind' (fun _ => True) (frag_eq c)); try (intros; exact Logic.I); unfold frag_eq.
-  - intros x e _ FT SP il B sl st H. cbn [ok_stmt] in H. okx H. cbn [cstmt sitems]. now rewrite (cexpr_rhs FT SP B).
-  - intros x e _ FT SP il B sl st H. discriminate.
-  - intros x o e _ FT SP il B sl st H. cbn [ok_stmt] in H. okx H. cbn [cstmt sitems]. now rewrite (cexpr_rhs FT SP B).
-  - intros e _ FT SP il B sl st H. cbn [ok_stmt] in H. cbn [cstmt sitems]. now rewrite (cexpr_rhs FT SP B).
-  - intros e sp _ FT SP il B sl st H. cbn [ok_stmt] in H. cbn [cstmt sitems]. now rewrite (cexpr_rhs FT SP B).
-  - intros e _ FT SP il B sl st H. cbn [ok_stmt] in H. cbn [cstmt sitems]. now rewrite (cexpr_rhs FT SP B).
-  - intros cnd b _ Hb FT SP il B sl st H. rewrite ok_SIf in H. okx H.
-    rewrite cstmt_SIf, sitems_SIf, (cexpr_rhs FT SP B) by assumption.
-    rewrite (cblockT_frag c b Hb FT SP il B _ st) by assumption. reflexivity.
-  - intros cnd b e _ Hb He FT SP il B sl st H. rewrite ok_SIfElse in H. okx H.
-    rewrite cstmt_SIfElse, sitems_SIfElse, (cexpr_rhs FT SP B) by assumption.
-    rewrite (cblockT_frag c b Hb FT SP il B _ st) by assumption.
-    rewrite (cblockT_frag c e He FT SP il B _ st) by assumption. reflexivity.
-  - intros cnd b n _ Hb Hn FT SP il B sl st H. rewrite ok_SIfElif in H. okx H.
-    rewrite cstmt_SIfElif, sitems_SIfElif, (cexpr_rhs FT SP B) by assumption.
-    rewrite (cblockT_frag c b Hb FT SP il B _ st) by assumption.
-    rewrite (Hn FT SP il B _ st) by assumption. reflexivity.
-  - intros cnd b _ Hb FT SP il B sl st H. rewrite ok_SWhile in H. okx H.
-    rewrite cstmt_SWhile, sitems_SWhile, (cexpr_rhs FT SP B) by assumption.
-    rewrite (cblockT_frag c b Hb FT SP true B _ st) by assumption. reflexivity.
-  - intros a b incl step nm col body _ _ _ Hbody FT SP il B sl st H.
+  - intros x e _ FT SP CD il B sl st H. cbn [ok_stmt] in H. okx H. cbn [cstmt sitems]. now rewrite (cexpr_rhs FT SP (B ++ CD)).
+  - intros x e _ FT SP CD il B sl st H. discriminate.
+  - intros x o e _ FT SP CD il B sl st H. cbn [ok_stmt] in H. okx H. cbn [cstmt sitems]. now rewrite (cexpr_rhs FT SP (B ++ CD)).
+  - intros e _ FT SP CD il B sl st H. cbn [ok_stmt] in H. cbn [cstmt sitems]. now rewrite (cexpr_rhs FT SP (B ++ CD)).
+  - intros e sp _ FT SP CD il B sl st H. cbn [ok_stmt] in H. cbn [cstmt sitems]. now rewrite (cexpr_rhs FT SP (B ++ CD)).
+  - intros e _ FT SP CD il B sl st H. cbn [ok_stmt] in H. cbn [cstmt sitems]. now rewrite (cexpr_rhs FT SP (B ++ CD)).
+  - intros cnd b _ Hb FT SP CD il B sl st H. rewrite ok_SIf in H. okx H.
+    rewrite cstmt_SIf, sitems_SIf, (cexpr_rhs FT SP (B ++ CD)) by assumption.
+    rewrite (cblockT_frag c b Hb FT SP CD il B _ st) by assumption. reflexivity.
+  - intros cnd b e _ Hb He FT SP CD il B sl st H. rewrite ok_SIfElse in H. okx H.
+    rewrite cstmt_SIfElse, sitems_SIfElse, (cexpr_rhs FT SP (B ++ CD)) by assumption.
+    rewrite (cblockT_frag c b Hb FT SP CD il B _ st) by assumption.
+    rewrite (cblockT_frag c e He FT SP CD il B _ st) by assumption. reflexivity.
+  - intros cnd b n _ Hb Hn FT SP CD il B sl st H. rewrite ok_SIfElif in H. okx H.
+    rewrite cstmt_SIfElif, sitems_SIfElif, (cexpr_rhs FT SP (B ++ CD)) by assumption.
+    rewrite (cblockT_frag c b Hb FT SP CD il B _ st) by assumption.
+    rewrite (Hn FT SP CD il B _ st) by assumption. reflexivity.
+  - intros cnd b _ Hb FT SP CD il B sl st H. rewrite ok_SWhile in H. okx H.
+    rewrite cstmt_SWhile, sitems_SWhile, (cexpr_rhs FT SP (B ++ CD)) by assumption.
+    rewrite (cblockT_frag c b Hb FT SP CD true B _ st) by assumption. reflexivity.
+  - intros a b incl step nm col body _ _ _ Hbody FT SP CD il B sl st H.
     rewrite ok_SFrom in H. rewrite !Bool.andb_true_iff in H. destruct H as [[Hoa Hob] H].
     rewrite cstmt_SFrom, sitems_SFrom.
     assert (Est1 : forall (stx : cst), {| fid := fid stx; lreg := S (lreg stx) - 1; fbuf := fbuf stx |} = stx).
     { intros [f l0 fb]. cbn. now rewrite Nat.sub_0_r. }
     assert (Est2 : forall (stx : cst), {| fid := fid stx; lreg := S (S (lreg stx)) - 2; fbuf := fbuf stx |} = stx).
     { intros [f l0 fb]. cbn. now rewrite Nat.sub_0_r. }
-    assert (HB : exists B' B'', step_ok B' step = true /\ ok_block FT SP true B'' body = true).
+    assert (HB : exists B' B'', step_ok B' step = true /\ ok_block FT SP CD true B'' body = true).
     { destruct nm as [x|]; destruct col; try discriminate; okx H; eauto. }
     destruct HB as (B' & B'' & Hst & Hbd).
     assert (Hstep : forall stx, (match step with Some e => cexpr path c e stx | None => ([I OP_MAKE_INT [s_one]], stx) end)
                                 = (step_code c step, stx)).
     { intros stx. destruct step as [e|]; [|reflexivity]. cbn [step_ok] in Hst. cbn [step_code]. now rewrite (cexpr_ok B'). }
     destruct nm as [x|].
-    + cbn [from_idn from_lr1]. rewrite (cexpr_ok B) by assumption. rewrite (cexpr_ok B) by assumption.
-      cbv zeta. rewrite (cblockT_frag c body Hbody FT SP true B'' _ _) by assumption. cbn [lreg fid fbuf].
+    + cbn [from_idn from_lr1]. rewrite (cexpr_ok (B ++ CD)) by assumption. rewrite (cexpr_ok (B ++ CD)) by assumption.
+      cbv zeta. rewrite (cblockT_frag c body Hbody FT SP CD true B'' _ _) by assumption. cbn [lreg fid fbuf].
       rewrite Hstep. cbn [lreg fid fbuf]. rewrite Est1. reflexivity.
-    + cbn [from_idn from_lr1]. rewrite (cexpr_ok B) by assumption. rewrite (cexpr_ok B) by assumption.
-      cbv zeta. cbn [lreg fid fbuf]. rewrite (cblockT_frag c body Hbody FT SP true B'' _ _) by assumption. cbn [lreg fid fbuf].
+    + cbn [from_idn from_lr1]. rewrite (cexpr_ok (B ++ CD)) by assumption. rewrite (cexpr_ok (B ++ CD)) by assumption.
+      cbv zeta. cbn [lreg fid fbuf]. rewrite (cblockT_frag c body Hbody FT SP CD true B'' _ _) by assumption. cbn [lreg fid fbuf].
       rewrite Hstep. cbn [lreg fid fbuf]. rewrite Est2. reflexivity.
-  - intros FT SP il B sl st H. reflexivity.
-  - intros FT SP il B sl st H. reflexivity.
-  - intros [e|] _ FT SP il B sl st H; [|discriminate]. cbn [ok_stmt] in H. cbn [cstmt sitems]. now rewrite (cexpr_rhs FT SP B).
+  - intros FT SP CD il B sl st H. reflexivity.
+  - intros FT SP CD il B sl st H. reflexivity.
+  - intros [e|] _ FT SP CD il B sl st H; [|discriminate]. cbn [ok_stmt] in H. cbn [cstmt sitems]. now rewrite (cexpr_rhs FT SP (B ++ CD)).
 Qed.
 
-Corollary cblockT_ok : forall c l FT SP il B sl st, ok_block FT SP il B l = true -> cblockT c sl l st = (bitems c (lreg st) sl l, st).
+Corollary cblockT_ok : forall c l FT SP CD il B sl st, ok_block FT SP CD il B l = true -> cblockT c sl l st = (bitems c (lreg st) sl l, st).
 Proof.
   intros c l. apply cblockT_frag. apply Forall_forall. intros s _. apply cstmt_frag.
 Qed.
